@@ -501,8 +501,15 @@ func (i *interpreter) boundsCheck(idx value, n int, what string) {
 	_, signed := kindInfo(sv.K)
 	var inb *Term
 	if signed {
-		inb = s.And(s.SLe(s.BV(w, 0), sv.T), s.SLt(sv.T, s.BV(w, uint64(n))))
+		if w < 64 && uint64(n) >= uint64(1)<<(w-1) {
+			inb = s.SLe(s.BV(w, 0), sv.T)
+		} else {
+			inb = s.And(s.SLe(s.BV(w, 0), sv.T), s.SLt(sv.T, s.BV(w, uint64(n))))
+		}
 	} else {
+		if w < 64 && uint64(n) >= uint64(1)<<w {
+			return
+		}
 		inb = s.ULt(sv.T, s.BV(w, uint64(n)))
 	}
 	if !i.decide(inb, what) {
